@@ -31,6 +31,7 @@ def jobs(tier):
     J.append(seq(len=6 if q else 7, keys=4, hmap=1, flags=1, nresize=3, workers=8))
     J.append(seq("1,0,0,0", len=4 if q else 5, keys=4, hmap=1, flags=1, nresize=3, workers=8))
     J.append(seq(len=6, keys=2, hmap=1, flags=3, count_commit_order=0, nresize=3, workers=8))
+    J.append(seq(len=6 if q else 7, keys=4, hmap=1, flags=1, maxb=2, nresize=3, workers=8))
     J.append(seq("1,0,0,0", len=4 if q else 5, keys=2, hmap=1, flags=3, count_commit_order=1, nresize=3, workers=8))
     return J
 
